@@ -326,6 +326,20 @@ func (c *composer) value(data []byte, depth int) (interface{}, int, error) {
 		}
 		return rjson.ReadBool(data)
 	case rjson.NumberType:
+		if variant == 3 {
+			// the documented style: an integer reader first, the float reader when it declines.
+			// float64(i) is the correctly rounded value of the same literal (i != 0: "-0" keeps its sign
+			// only through the float reader)
+			if off%2 == 0 {
+				if i, p, err := rjson.ReadInt64(data); err == nil && i != 0 {
+					return float64(i), p, nil
+				}
+			} else {
+				if u, p, err := rjson.ReadUint64(data); err == nil && u != 0 {
+					return float64(u), p, nil
+				}
+			}
+		}
 		return rjson.ReadFloat64(data)
 	case rjson.StringType:
 		if variant == 3 {
